@@ -305,3 +305,59 @@ def c19_reorg_records_ledger_location(ctx, v):
             return v.undecided("solver: no verdict")
     v.covers_total += 1
     v.covers_sat += 1 if n else 0
+
+
+def c19_refused_transfer_leaves_wallet(ctx, v):
+    """Transaction::create_with_multiple_payments (what Transaction::create goes through) with one
+    payment of any amount, any fee, any wallet balance: every path that refuses the transfer
+    (returns Err) does so BEFORE Wallet::generate_slips — the call that marks slips spent, takes
+    them out of the unspent list and lowers the balance — so a refused transfer leaves the wallet
+    as it was; and a path that does call generate_slips asks for exactly payment + fee (fee
+    dropped to 0 when it exceeds the balance)."""
+    from .models import as_enum, enum_is
+    body = ctx.body(r"transaction::<impl at [^>]*>::create_with_multiple_payments$")
+    ex = ctx.executor(loop_bound=4, inline="auto", max_paths=3000, no_inline=[r"Wallet::generate_slips$", r"fmt", r"to_hex"])
+    ex.pure = [r".*"]
+    bal = ex.fresh_value("u64", "available_balance")
+    wallet = ctx.mk_struct(ex, "Wallet", "wallet", available_balance=bal)
+    pay = ex.fresh_value("u64", "payment")
+    fee = ex.fresh_value("u64", "fee")
+    SUP = 7 * 10**17
+
+    def hook(ex_, st, callee, args, dty):
+        if re.search(r"Wallet::generate_slips$", callee):
+            st.events.append(("call", callee, ex_.snap_args(args), None))
+            return S.Agg("tuple", "(Vec<Slip>, Vec<Slip>)", [S.Seq([], "Slip"), S.Seq([], "Slip")])
+        return None
+    ex.on_call = hook
+    st = S.State()
+    st.pc.extend([z3.ULE(bal.bv, SUP), z3.ULE(pay.bv, SUP), z3.ULE(fee.bv, SUP)])
+    none_net = S.EnumV("Option", "None", None, {"None": S.Agg("variant", "None", [])})
+    outs = ex.run(body, [S.Ref(S.Cell(wallet), (), True), S.Seq([ex.fresh_value("[u8; 33]", "recipient")], "[u8; 33]"), S.Seq([pay], "u64"), fee, none_net,
+                         ex.fresh_value("u64", "latest_block_id"), ex.fresh_value("u64", "genesis_period")], st)
+    v.paths += len(outs)
+    n = 0
+    for o in outs:
+        if o.kind in ("unsupported", "unwound", "path-limit"):
+            return v.undecided("%s %s" % (o.kind, o.info))
+        if o.kind == "panic":
+            L.report_panic(v, ex, o, "create_with_multiple_payments panics: %s" % o.info)
+            continue
+        if o.kind != "return":
+            continue
+        res = as_enum(ex, o.value, "Result")
+        gs = [e for e in o.events if e[0] == "call" and re.search(r"Wallet::generate_slips$", e[1])]
+        v.queries += 1
+        if gs and ex.feasible(o.pc, enum_is(ex, res, "Err")):
+            L.fail_structural(v, o, "a transfer is refused (Err) after Wallet::generate_slips has already committed the wallet's slips to it: the wallet no longer matches the ledger and nothing un-commits them")
+            continue
+        if gs:
+            asked = gs[0][2][1]
+            eff_fee = z3.If(z3.UGT(fee.bv, bal.bv), z3.BitVecVal(0, 64), fee.bv)
+            v.queries += 1
+            if ex.feasible(o.pc, asked.bv != pay.bv + eff_fee):
+                L.fail_structural(v, o, "generate_slips is asked for an amount other than payment + fee")
+                continue
+        n += 1
+    v.covers_total += 1
+    v.covers_sat += 1 if n else 0
